@@ -252,6 +252,22 @@ func runC02Mat(c *Ctx) {
 			}
 		}
 		if lenCall == nil {
+			// the probe may be the text itself: msg := buf.String(); if msg == "" { return nil }
+			for _, b := range fn.Blocks {
+				for _, ins := range b.Instrs {
+					call, ok := ins.(*ssa.Call)
+					if !ok || calleeName(&call.Call) != "(*strings.Builder).String" {
+						continue
+					}
+					for _, r := range refs(call) {
+						if bin, ok := r.(*ssa.BinOp); ok && (bin.Op == token.EQL || bin.Op == token.NEQ) && isEmptinessConst(bin.Y) {
+							lenCall, lenSite = call, call
+						}
+					}
+				}
+			}
+		}
+		if lenCall == nil {
 			c.Unk("C02-MAT", name, "empty-test", fn.Pos(), "no emptiness test of the error buffer found")
 			continue
 		}
@@ -291,6 +307,9 @@ func runC02Mat(c *Ctx) {
 					var storeBlocks []*ssa.BasicBlock
 					for _, r := range refs(al) {
 						if st, ok := r.(*ssa.Store); ok && st.Addr == ssa.Value(al) {
+							if ld, ok := st.Val.(*ssa.UnOp); ok && ld.Op == token.MUL && ld.X == ssa.Value(al) {
+								continue // `return err` with a named result err: the cell is assigned its own value
+							}
 							cands = append(cands, cand{st.Val, nil, st.Block()})
 							storeBlocks = append(storeBlocks, st.Block())
 						}
@@ -353,15 +372,9 @@ func runC02Mat(c *Ctx) {
 					v = mi.X
 				}
 				if call, isCall := v.(*ssa.Call); isCall && calleeName(&call.Call) == "errors.New" {
-					if ts, ok := call.Call.Args[0].(*ssa.Call); ok && calleeName(&ts.Call) == "strings.TrimSuffix" {
-						s0, isS := ts.Call.Args[0].(*ssa.Call)
-						sep, isSep := ts.Call.Args[1].(*ssa.UnOp)
-						if isS && calleeName(&s0.Call) == "(*strings.Builder).String" && isSep {
-							if g, ok := sep.X.(*ssa.Global); ok && g.Name() == "ErrEndFlag" {
-								okShape = true
-								detail = "errors.New(strings.TrimSuffix(buf.String(), ErrEndFlag))"
-							}
-						}
+					if trimmedBufferText(call.Call.Args[0]) {
+						okShape = true
+						detail = "errors.New(strings.TrimSuffix(buf.String(), ErrEndFlag))"
 					}
 				}
 				c.Check(okShape && implies(false), "C02-MAT", name, d+":error", ret.Pos(), detail, detail+" or the error is returned on the 'buffer is empty' edge")
@@ -398,6 +411,75 @@ func runC02Mat(c *Ctx) {
 		}
 		c.Check(bad == 0 && n > 0, "C02-MAT", fnName(r.Fn), "ends-in-getError", r.Fn.Pos(), fmt.Sprintf("%d walking paths all return getError()", n), fmt.Sprintf("%d of %d walking paths do not return the materialised error", bad, n))
 	}
+}
+
+// isEmptinessConst: the constant an emptiness probe is compared with: 0 for Len(), "" for String().
+func isEmptinessConst(v ssa.Value) bool {
+	if k, ok := constInt(v); ok && k == 0 {
+		return true
+	}
+	if s, ok := constString(v); ok && s == "" {
+		return true
+	}
+	return false
+}
+
+// trimmedBufferText: v is the buffer's text with one trailing separator removed, spelt either
+// strings.TrimSuffix(buf.String(), ErrEndFlag) or, written out, φ(s, s[:len(s)-len(sep)]) where the cut
+// arrives from the true side of strings.HasSuffix(s, sep) (s = buf.String(), sep = ErrEndFlag).
+func trimmedBufferText(v ssa.Value) bool {
+	isBufText := func(x ssa.Value) bool {
+		c, ok := x.(*ssa.Call)
+		return ok && calleeName(&c.Call) == "(*strings.Builder).String"
+	}
+	isSep := func(x ssa.Value) bool {
+		u, ok := x.(*ssa.UnOp)
+		if !ok {
+			return false
+		}
+		g, ok := u.X.(*ssa.Global)
+		return ok && g.Name() == "ErrEndFlag"
+	}
+	if ts, ok := v.(*ssa.Call); ok && calleeName(&ts.Call) == "strings.TrimSuffix" {
+		return isBufText(ts.Call.Args[0]) && isSep(ts.Call.Args[1])
+	}
+	ph, ok := v.(*ssa.Phi)
+	if !ok || len(ph.Edges) != 2 {
+		return false
+	}
+	for i, e := range ph.Edges {
+		sl, ok := e.(*ssa.Slice)
+		other := ph.Edges[1-i]
+		if !ok || sl.X != other || !isBufText(other) || sl.Low != nil || sl.High == nil {
+			continue
+		}
+		// high = len(s) - len(sep)
+		sub, ok := sl.High.(*ssa.BinOp)
+		if !ok || sub.Op != token.SUB {
+			continue
+		}
+		lx, ok1 := sub.X.(*ssa.Call)
+		ly, ok2 := sub.Y.(*ssa.Call)
+		if !ok1 || !ok2 || calleeName(&lx.Call) != "builtin.len" || calleeName(&ly.Call) != "builtin.len" || lx.Call.Args[0] != other || !isSep(ly.Call.Args[0]) {
+			continue
+		}
+		// the cut is made on the true side of HasSuffix(s, sep): pred of the phi edge i is (dominated by) that side
+		pred := ph.Block().Preds[i]
+		for d := pred; d != nil; d = d.Idom() {
+			if len(d.Preds) != 1 {
+				continue
+			}
+			iff, ok := d.Preds[0].Instrs[len(d.Preds[0].Instrs)-1].(*ssa.If)
+			if !ok || d.Preds[0].Succs[0] != d {
+				continue
+			}
+			hs, ok := iff.Cond.(*ssa.Call)
+			if ok && calleeName(&hs.Call) == "strings.HasSuffix" && hs.Call.Args[0] == other && isSep(hs.Call.Args[1]) {
+				return true
+			}
+		}
+	}
+	return false
 }
 
 func indexIn(ins ssa.Instruction) int {
@@ -440,7 +522,7 @@ func nonEmptySuccs(lenCall *ssa.Call) []*ssa.BasicBlock {
 		if !ok {
 			continue
 		}
-		if k, ok := constInt(bin.Y); !ok || k != 0 {
+		if !isEmptinessConst(bin.Y) {
 			continue
 		}
 		for _, r2 := range refs(bin) {
@@ -470,7 +552,7 @@ func edgeImpliesEdge(lenCall *ssa.Call, pred, at *ssa.BasicBlock, want bool) boo
 		if !ok {
 			continue
 		}
-		if k, ok := constInt(bin.Y); !ok || k != 0 {
+		if !isEmptinessConst(bin.Y) {
 			continue
 		}
 		for _, r2 := range refs(bin) {
@@ -509,7 +591,7 @@ func edgeImplies(lenCall *ssa.Call, b *ssa.BasicBlock, want bool) bool {
 		if !ok {
 			continue
 		}
-		if k, ok := constInt(bin.Y); !ok || k != 0 {
+		if !isEmptinessConst(bin.Y) {
 			continue
 		}
 		for _, r2 := range refs(bin) {
